@@ -12,12 +12,14 @@ MANIFEST = dict(
     text=("Coq theorems about a bit-exact PrimFloat model of lsearchk_t::get and the five line-searches run against an "
           "arbitrary probe oracle: a reported success implies the advertised boolean predicates (Armijo / Armijo+Wolfe / "
           "Armijo+strong Wolfe, exactly as state.cpp computes them) on the returned state and step, the returned state is "
-          "the last probe, a non-descent direction is refused without a probe. The predicates and interpolation formulas "
+          "the last probe, a non-descent direction is refused without a probe; for More-Thuente and CG_DESCENT the exact case split "
+          "of a success (convergence test or one of the four no-progress exits; Wolfe, approximate Wolfe or 'bracketing failed'), "
+          "with every successful run of the library classified into those cases. The predicates, exit tests and interpolation formulas "
           "are re-translated from the sources on every run; the extracted model replays every recorded run of the real "
           "library (registered smooth functions, random quadratics, adversarial 1-D oracles) and must request the same "
           "probes and return the same (ok, t) bit for bit; an independent oracle recomputes the advertised conditions "
           "from the user function at the accepted point."),
-    note=("Coq kernel + primitive floats (= IEEE binary64 of the host); translator (18 kernels, PrimFloat reading "
+    note=("Coq kernel + primitive floats (= IEEE binary64 of the host); translator (31 kernels, PrimFloat reading "
           "derived in tools/checks/c07.py); extraction (ExtrOcamlBasic, ExtrOCamlFloats); recording function_t harness + "
           "OCaml driver; 'succeeds on convex quadratics' and 't > 0' are searched, not proved."),
     technique="Coq proof over a translated+extracted PrimFloat model, bit-exact differential replay, direct oracle",
@@ -270,6 +272,7 @@ def run(tier, replay=None):
     if drv:
         rc2, derr = vlib.sh("%s < %s > %s" % (shlex.quote(drv), shlex.quote(out_path), shlex.quote(drv_path)), timeout=3000)
         n_mism = 0
+        hists = {}
         with open(drv_path, errors="replace") as f:
             for l in f:
                 l = l.rstrip("\n")
@@ -277,6 +280,9 @@ def run(tier, replay=None):
                     n_mism += 1
                     if len(mism) < 200:
                         mism.append(l)
+                elif l.startswith("HIST "):
+                    p = l.split(" ")
+                    hists[p[1]] = {kv.rpartition("=")[0]: int(kv.rpartition("=")[2]) for kv in p[2:]}
                 elif l.startswith("MODEL-DONE"):
                     checked = int(l.split("checked=")[1].split()[0])
         if rc2 != 0 or not checked:
@@ -285,7 +291,7 @@ def run(tier, replay=None):
         corr = [l for l in mism if l.startswith("MISMATCH")]
         for i, l in enumerate(prop[:3]):
             cid = l.split(" ")[2] if l.split(" ")[1] == "LS" else "?"
-            r.violation("prop-%d" % i, {"kind": "the proved conclusion (advertised predicates on the last probe / refusal) fails on the "
+            r.violation("prop-%d" % i, {"kind": "the proved conclusion (advertised predicates on the last probe / refusal / More-Thuente and CG_DESCENT success cases) fails on the "
                                                 "data recorded from the implementation", "case": l[:6000], "replay_cmd": replay_cmd(cid)})
         for i, l in enumerate(corr[:3]):
             p = l.split(" ")
@@ -299,6 +305,7 @@ def run(tier, replay=None):
                         no_input=not (impl_fail or qfail or prop))
     else:
         n_mism = 0
+        hists = {}
     for pth in (out_path, drv_path):       # several hundred MB in the thorough tier; every replay_cmd regenerates its case
         try:
             os.remove(pth)
@@ -306,7 +313,7 @@ def run(tier, replay=None):
             pass
     vlib.handle_coq_failure(r, cres)
     vlib.proof_coverage(r, cres, "make -C coq theories/Properties_C07.vo && coqc theories/Properties_C07.v (Print Assumptions)",
-                        ["tools/translate.py (18 kernels of state.cpp/state.h/lstep.cpp/lsearchk.cpp) + structural PrimFloat reading (tools/checks/c07.py: gen_float_twin)",
+                        ["tools/translate.py (31 kernels of state.cpp/state.h/lstep.cpp/lsearchk.cpp/morethuente.cpp/cgdescent.cpp) + structural PrimFloat reading (tools/checks/c07.py: gen_float_twin)",
                          "Coq primitive floats = IEEE-754 binary64 of the host (PrimFloat.* in Print Assumptions)",
                          "extraction: ExtrOcamlBasic, ExtrOCamlFloats (coq-core.kernel Float64)",
                          "hand-written control flow of the five searches in C07_Defs.v (tied by the bit-exact replay of every run)",
@@ -328,6 +335,10 @@ def run(tier, replay=None):
     cov["harness_counts"] = st
     cov["stats"] = stats
     cov["successful_runs"] = n_ok
+    # every successful More-Thuente / CG_DESCENT run of the library classified into the disjuncts of
+    # C07_morethuente_success_cases / C07_cgdescent_success_cases (exit taken = first true test in source order; NONE = violation)
+    for h in ("mt_success_cases", "mt_success_flags", "cg_success_cases", "cg_success_flags"):
+        cov[h] = hists.get(h, {})
     cov["mismatches"] = n_mism
     cov["impl_direct_failures"] = len(impl_fail) + len(qfail)
     cov["candidate_findings"] = candidates
@@ -339,7 +350,10 @@ def run(tier, replay=None):
         "on convex quadratics all five searches succeed and satisfy their advertised conditions (floating-point success claim; demanded for "
         "valid origin, t0 in [1e-3,1e3] or non-finite, default method parameters, max_iterations >= 100, c1 <= 0.99, exact minimiser along d in [1e-10,1e10], and c1 < 1/2 for CG_DESCENT)",
         "advertised conditions in real arithmetic 'up to rounding' (oracle recomputes them in long double with a 2^-50 relative slack)",
-        "More-Thuente / CG_DESCENT advertised conditions outside convex quadratics (they also report success when no progress is possible)"]
+        "More-Thuente / CG_DESCENT: strong Wolfe / (approximate) Wolfe on EVERY success is false (C07_morethuente_exits_reachable, "
+        "C07_cgdescent_exits_reachable); what is proved is the exact case split, and every successful run is classified into it "
+        "(mt_success_cases, cg_success_cases); CG_DESCENT's sub-case a.f > f0 + epsilon_k is believed unreachable (a only holds points "
+        "with approximate Armijo), not proved"]
     cov["excluded_inputs"] = ["max_iterations < 100, c1 > 0.99, non-default method parameters, t0 outside [1e-3,1e3] (finite), exact minimiser along d outside "
                               "[1e-10,1e10] (the searches are confined to [stpmin,stpmax]), c1 >= 1/2 with CG_DESCENT: "
                               "success on quadratics not demanded (correspondence and the success-implies-conditions oracle still apply)"]
